@@ -59,6 +59,7 @@ pub fn node_case<H: HB>(prop: &str, node: &Node<H>, universe: &[u32], last: Opti
         detail,
         universe: universe.to_vec(),
         aux: None,
+        trail: vec![],
     }
 }
 
